@@ -81,11 +81,12 @@ class Flow:
         """node, parent, grandparent ... up to (excluding) the enclosing function or `stop`."""
         out = [node]
         p = self.prog.parent(node)
+        # lambdas are treated as transparent (the package only uses them for immediate evaluation)
         while p is not None and p is not stop and not isinstance(p, (ast.FunctionDef, ast.AsyncFunctionDef,
-                                                                      ast.Lambda, ast.Module, ast.ClassDef)):
+                                                                      ast.Module, ast.ClassDef)):
             out.append(p)
             p = self.prog.parent(p)
-        if p is not None and isinstance(p, (ast.FunctionDef, ast.AsyncFunctionDef, ast.Lambda)):
+        if p is not None and isinstance(p, (ast.FunctionDef, ast.AsyncFunctionDef)):
             out.append(p)
         return out
 
@@ -156,6 +157,25 @@ class Flow:
                 if child in blk:
                     out.extend(blk[:blk.index(child)])
         return out
+
+    def unconditional(self, node: ast.AST) -> bool:
+        """The node is evaluated exactly once whenever its function runs to that point: no enclosing branch, loop,
+        handler, conditional expression, short-circuit operand or comprehension."""
+        chain = self.chain(node)
+        for child, parent in zip(chain, chain[1:]):
+            if isinstance(parent, (ast.If, ast.For, ast.AsyncFor, ast.While, ast.Try, ast.ExceptHandler, ast.With,
+                                   ast.ListComp, ast.SetComp, ast.DictComp, ast.GeneratorExp, ast.comprehension,
+                                   ast.Lambda, ast.Match)) and not (isinstance(parent, ast.With)):
+                if isinstance(parent, (ast.If, ast.While)) and child is parent.test:
+                    continue
+                if isinstance(parent, (ast.For, ast.AsyncFor)) and child is parent.iter:
+                    continue
+                return False
+            if isinstance(parent, ast.IfExp) and child is not parent.test:
+                return False
+            if isinstance(parent, ast.BoolOp) and child is not parent.values[0]:
+                return False
+        return True
 
     def enclosing_stmt(self, node: ast.AST) -> ast.stmt:
         n = node
